@@ -130,6 +130,11 @@ func (e *Exec) constVal(cv constant.Value, t types.Type) (Val, bool) {
 }
 
 func (e *Exec) ev(st *State, x ast.Expr) Val {
+	if e.preEval != nil {
+		if v, ok := e.preEval[x]; ok {
+			return v // an argument of a deferred call, evaluated when the defer statement ran
+		}
+	}
 	info := e.info()
 	if tv, ok := info.Types[x]; ok && tv.Value != nil {
 		if v, ok := e.constVal(tv.Value, tv.Type); ok {
